@@ -155,6 +155,11 @@ func BuildRoot(w *World, root string, lib *OpLib) {
 		// position then holds ~60 % of the pool's shares — forced exits of it are large against the
 		// pool's USDC side (the leveragelp AfterExitPool hook can reject them AFTER the exit happened)
 		prefix = []string{"perp_open_long_t1", "perp_open_short_t2", "llp_open_t1_x3", "swap_in_p1_usdc_atom_L", "swap_in_p2_elys_usdc_L", "gap_1d", "mc_claim_lp1", "commit_eden_lp1", "vest_eden_lp1", "stake_elys_lp1", "bond_lp1_XL", "exit_p1_90pct_lp1", "llp_open_t2_x5_big"}
+	case "R6":
+		// several accounts hold SEVERAL committed denoms, acquired in different orders, and every lock
+		// has expired: t1 [pool1, pool2], lp2 [stablestake, pool2], lp1 [pool1, pool2, ueden, pool3] —
+		// a full withdrawal of an entry that is not the account's last one is one op away
+		prefix = []string{"swap_in_p1_usdc_atom_L", "gap_1d", "mc_claim_lp1", "commit_eden_lp1", "join_p1_all_t1", "join_p2_all_t1", "join_p2_all_lp2", "create_pool_lp1", "gap_1d"}
 	case "R4":
 		// R1 with a large loan outstanding for 30 days under the default every-block sweep: the
 		// interest is booked, so the vault's redemption rate sits visibly above 1 (≈ 1.005)
